@@ -21,7 +21,14 @@ import (
 	"golang.org/x/tools/go/packages"
 )
 
-const repoGo = "/repo/go"
+// repoGo is the Go module under verification; GOVC_REPO overrides it for the
+// must-fail self-test, which runs on a scratch worktree.
+var repoGo = func() string {
+	if r := os.Getenv("GOVC_REPO"); r != "" {
+		return filepath.Join(r, "go")
+	}
+	return "/repo/go"
+}()
 
 type ghostInfo struct {
 	decl *ast.FuncDecl
